@@ -21,5 +21,5 @@ EXTRA = {
     # wave 8
     "C15_w8_seed_2": ["C02"], "C09_w8_seed_2": ["C08"], "C03_w8_seed_2": ["C20", "C14"], "C06_w8_seed_1": ["C08"], "C09_w8_seed_1": ["C05"], "C01_w8_seed_1": ["C05"],
     "C11_w8_seed_2": ["C19"], "C04_w8_seed_1": ["C08"], "C19_w8_seed_2": ["C02"], "C14_w8_seed_1": ["C09"], "C05_w8_seed_2": ["C06"], "C17_w8_seed_1": ["C02"],
-    "C17_w8_seed_2": ["C09"], "C08_w8_seed_1": ["C02"], "C19_w8_seed_1": ["C06"],
+    "C17_w8_seed_2": ["C09"], "C08_w8_seed_1": ["C02"], "C19_w8_seed_1": ["C06"], "C02_w8_seed_2": ["C03"],
 }
